@@ -8,6 +8,8 @@ mod c03;
 mod c05;
 mod c06;
 mod c18;
+mod c20;
+mod c20_tree;
 
 fn main() {
     let a: Vec<String> = std::env::args().collect();
@@ -21,6 +23,7 @@ fn main() {
         "C05" => c05::run(tier, seed, dir),
         "C06" => c06::run(tier, seed, dir),
         "C18" => c18::run(tier, seed, dir),
+        "C20" => c20::run(tier, seed, dir),
         _ => { eprintln!("unknown property {}", prop); std::process::exit(2); }
     }
 }
